@@ -25,7 +25,8 @@
 EXTENDS Naturals, Sequences, FiniteSets, TLC, Json
 
 CONSTANTS Ks,        \* the periods k of forced schedules
-          MaxRep     \* repetitions 1..MaxRep
+          MaxRep,    \* repetitions 1..MaxRep
+          MaxBatch   \* the longest batch composition enumerated (files in one invocation)
 
 Axes      == {"gc", "aslr", "cwd", "env", "inv", "rep"}
 AxisOrder == <<"gc", "aslr", "cwd", "env", "inv", "rep">>
@@ -51,16 +52,78 @@ Valid(c) == /\ DOMAIN c = Axes
 
 Baseline == [gc |-> [flag |-> "none", k |-> 0, j |-> 0], aslr |-> "off", cwd |-> "A", env |-> "empty", inv |-> "sep", rep |-> 1]
 
+(* ---- what is observed: outputs and their projections -------------------- *)
+(* Every output kind is observed as its full text AND through projections: functions of the text   *)
+(* that do not change when the slot numbers of the lexicals of one environment format are          *)
+(* permuted.  That permutation is the one recorded defect of the batch axis (a file that follows a *)
+(* file which loaded the same library numbers the lexicals that hold its imported domains in       *)
+(* another order); it is visible in the full text only.  Any OTHER state carried from one file of  *)
+(* an invocation to the next -- a list of included C headers, a literal / label / name counter, an *)
+(* assertion or option set by an earlier file, message state -- changes a projection, and a        *)
+(* projection that differs is an ordinary rejected observation.  gen/detproj.py computes them.     *)
+OutKinds == {"ao", "fm", "c", "lsp", "java", "msg", "exit"}
+FullText == "text"
+Projections(kind) ==
+  CASE kind = "c"    -> {"includes", "decls", "structs", "funcs", "literals", "canon", "syntax"}
+    [] kind = "fm"   -> {"tags", "globals", "consts", "formats", "literals", "progs", "canon"}
+    [] kind = "lsp"  -> {"tags", "declare", "structs", "literals", "canon"}
+    [] kind = "java" -> {"imports", "members", "literals", "canon"}
+    [] kind = "ao"   -> {"sections", "ids", "foamsize"}
+    [] OTHER         -> {}
+(* what an Observe event may name *)
+ValidView(kind, proj) == kind \in OutKinds /\ (proj = FullText \/ proj \in Projections(kind))
+(* the recorded renumbering is a difference of full texts of code outputs between a separate and a  *)
+(* batched compilation: nothing else may be explained by it                                          *)
+RenumberingMayExplain(kind, proj, axes) ==
+  proj = FullText /\ kind \in {"ao", "fm", "c", "lsp", "java"} /\ "inv" \in axes
+
+(* ---- the batch family: which kinds of file precede which ------------------------------------------ *)
+(* A file kind names what a file does to the state of the compiler process that a later file could   *)
+(* meet: loads no library at all / an ordinary program / many string, big-integer and float literals *)
+(* / Foreign C imports naming one set of headers / another, overlapping set / one header of those    *)
+(* only / assertions, piles and directory directives / diagnostics.  Every kind has two              *)
+(* representatives; a batch is a sequence of (kind, representative) of length 2..MaxBatch, so the    *)
+(* same file twice, two different files of a kind and every order of two kinds are all batches.      *)
+(* The sequences are taken up to renaming of representatives (representative 2 of a kind only after  *)
+(* representative 1 of it).                                                                          *)
+FileKinds == {"tiny", "clean", "lits", "fhdrA", "fhdrB", "fuse", "prag", "err"}
+Slots     == [kind : FileKinds, rep : {1, 2}]
+CanAdd(b, s) == s.rep = 2 => \E j \in 1..Len(b) : b[j].kind = s.kind /\ b[j].rep = 1
+BatchOk(b) == /\ Len(b) \in 2..MaxBatch
+              /\ \A i \in 1..Len(b) : b[i] \in Slots /\ CanAdd(SubSeq(b, 1, i - 1), b[i])
+Precedes(b, k1, k2) == \E i \in 1..(Len(b) - 1) : b[i].kind = k1 /\ b[i + 1].kind = k2
+SameTwice(b)        == \E i, j \in 1..Len(b) : i < j /\ b[i] = b[j]
+BatchId(b) == LET Nm(s) == s.kind \o ToString(s.rep)
+              IN  IF Len(b) = 2 THEN Nm(b[1]) \o "+" \o Nm(b[2])
+                  ELSE IF Len(b) = 3 THEN Nm(b[1]) \o "+" \o Nm(b[2]) \o "+" \o Nm(b[3])
+                  ELSE Nm(b[1]) \o "+" \o Nm(b[2]) \o "+" \o Nm(b[3]) \o "+" \o Nm(b[4])
+(* the two-file batches alone already put every kind directly before every kind, with the same file *)
+(* and with another file of the kind *)
+Pairs == {b \in [1..2 -> Slots] : BatchOk(b)}
+PairsCover == /\ \A k1, k2 \in FileKinds : \E b \in Pairs : Precedes(b, k1, k2)
+              /\ \A k \in FileKinds : \E b \in Pairs : b[1].kind = k /\ SameTwice(b)
+              /\ \A k \in FileKinds : \E b \in Pairs : b[1].kind = k /\ b[2].kind = k /\ ~SameTwice(b)
+
 (* ---- the machine ------------------------------------------------------- *)
 VARIABLES cfg,    \* the axes chosen so far (function from a prefix of AxisOrder)
-          pc      \* number of axes chosen
-vars == <<cfg, pc>>
+          pc,     \* number of axes chosen
+          batch   \* the batch composition chosen so far (sequence of Slots)
+vars == <<cfg, pc, batch>>
 
-Init == cfg = <<>> /\ pc = 0
+Init == cfg = <<>> /\ pc = 0 /\ batch = <<>>
 
-Choose(v) == /\ pc < Len(AxisOrder)
+Choose(v) == /\ pc < Len(AxisOrder) /\ batch = <<>>
              /\ cfg' = cfg @@ (AxisOrder[pc + 1] :> v)
              /\ pc' = pc + 1
+             /\ UNCHANGED batch
+
+(* the other branch from the initial state: compose a batch, one file per step *)
+AddFile == /\ pc = 0 /\ Len(batch) < MaxBatch
+           /\ \E s \in Slots : CanAdd(batch, s) /\ batch' = Append(batch, s)
+           /\ UNCHANGED <<cfg, pc>>
+ExportBatch == /\ Len(batch) >= 2
+               /\ PrintT("BATCH " \o ToJson([id |-> BatchId(batch), files |-> batch, twice |-> SameTwice(batch)]))
+               /\ UNCHANGED vars
 
 ChooseGc == /\ pc = 0
             /\ \/ \E f \in GcFlags : Choose([flag |-> f, k |-> 0, j |-> 0])
@@ -84,7 +147,8 @@ Wrapper(c) == IF c.aslr = "off" THEN <<"setarch", "-R">> ELSE <<>>
 (* measured cost model (one collection scans the whole compiler heap): a schedule with period k   *)
 (* multiplies the compile time by about 1 + 1000/k on a program that includes the library, so     *)
 (* short periods are applied to library-free ("tiny") inputs only                                 *)
-Classes(c) == IF c.gc.k = 0 THEN {"tiny", "gen", "corpus"}
+(* the batch family ("fam") is there for the inv axis: it is not run under forced schedules          *)
+Classes(c) == IF c.gc.k = 0 THEN {"tiny", "gen", "corpus", "fam"}
               ELSE IF c.gc.k >= 1000 THEN {"tiny", "gen", "corpus"}
               ELSE IF c.gc.k >= 50 THEN {"tiny", "gen"}
               ELSE {"tiny"}
@@ -112,6 +176,8 @@ StarCovers == /\ \A g \in AllGc : \E c \in Star : c.gc = g
 (* the machine reaches exactly the set *)
 MachineInSpace == Complete => cfg \in Configs
 ASSUME PrintT("NCONFIGS " \o ToString(Cardinality(Configs)) \o " STAR " \o ToString(Cardinality(Star)))
+ASSUME PrintT("VIEWS " \o ToJson([k \in OutKinds |-> Projections(k)]))
+ASSUME PrintT("FILEKINDS " \o ToJson(FileKinds))
 
 Export == /\ Complete
           /\ PrintT("CONFIG " \o ToJson([id |-> Id(cfg), cfg |-> cfg, args |-> Args(cfg), envadd |-> EnvAdd(cfg),
@@ -119,11 +185,13 @@ Export == /\ Complete
                                           collector |-> CollectorOn(cfg.gc)]))
           /\ UNCHANGED vars
 
-Next == ChooseGc \/ ChooseOther
-Spec == Init /\ [][Next \/ Export]_vars
+Next == ChooseGc \/ ChooseOther \/ AddFile
+Spec == Init /\ [][Next \/ Export \/ ExportBatch]_vars
 
 (* ---- invariants ------------------------------------------------------- *)
 TypeOK == /\ pc \in 0..Len(AxisOrder)
+          /\ Len(batch) <= MaxBatch /\ (batch # <<>> => pc = 0)
+          /\ \A i \in 1..Len(batch) : batch[i] \in Slots
           /\ DOMAIN cfg = {AxisOrder[i] : i \in 1..pc}
           /\ (pc >= 1 => GcOk(cfg.gc))
           /\ \A i \in 2..pc : cfg[AxisOrder[i]] \in Values(AxisOrder[i])
@@ -136,6 +204,12 @@ ConcreteFaithful      == Complete =>
                            /\ (EnvAdd(cfg) = <<>>) = (cfg.gc.k = 0)
                            /\ (Args(cfg) = <<>>) = (cfg.gc.flag = "none")
                            /\ Classes(cfg) # {} /\ "tiny" \in Classes(cfg)
+(* every exported batch is a batch of the family, and the machine reaches every pair *)
+BatchesOk             == Len(batch) >= 2 => BatchOk(batch)
+ViewsSound            == /\ \A k \in OutKinds : FullText \notin Projections(k) /\ ValidView(k, FullText)
+                         /\ \A k \in {"ao", "fm", "c", "lsp", "java"} : Projections(k) # {}
+                         /\ \A k \in OutKinds : \A p \in Projections(k) : ~RenumberingMayExplain(k, p, Axes)
+                         /\ ~RenumberingMayExplain("msg", FullText, Axes) /\ ~RenumberingMayExplain("c", FullText, Axes \ {"inv"})
 BaselineValid         == Valid(Baseline) /\ DiffAxes(Baseline, Baseline) = {}
 DiffSound             == Complete => /\ DiffAxes(cfg, cfg) = (IF cfg.aslr = "on" THEN {"aslr"} ELSE {})
                                      /\ DiffAxes(cfg, Baseline) = DiffAxes(Baseline, cfg)
